@@ -118,6 +118,8 @@ func decodeB64(s string) []byte {
 	return b
 }
 
+const c06HostM = "mixed.sso.test"
+
 func c06Run(c *fw.Ctx) {
 	c.Retries = 2 // socket-based harness: tolerate a transient glitch while replaying a prefix
 	vtime.SetManual(harness.T0)
@@ -151,6 +153,7 @@ func c06Run(c *fw.Ctx) {
 		Email: "bob@corp.test", User: "bob", AuthorizedUpstream: hostA})
 	states = append(states, named{"sealed-session-as-state", sealedSession})
 	cookies := []named{{"sealed-session-as-cookie", sealedSession}, {"absent", ""}, {"garbage", "Z2FyYmFnZQ"}, {"cookie_A", fa.Cookie}, {"cookie_A'", fa2.Cookie}, {"cookie_A''-second-tab", fa3.Cookie}, {"cookie_B", fb.Cookie}, {"state_A-as-cookie", fa.State}}
+	leads := []named{{"none", ""}, {"garbage", "Z2FyYmFnZQ"}, {"cookie_B", fb.Cookie}}
 	codes := []string{"", "code-allowed", "code-denied", "code-rejected", "code-unavailable", "code-allowed-long-tokens"}
 	errs := []string{"", "access_denied"}
 	hosts := []string{hostA, hostB}
@@ -162,6 +165,9 @@ func c06Run(c *fw.Ctx) {
 		code := codes[x.Choose("code", len(codes))]
 		er := errs[x.Choose("error", len(errs))]
 		host := hosts[x.Choose("host", len(hosts))]
+		// the browser may hold a second cookie of the same name (another flow's, or one it cannot make sense
+		// of any more), sent in front of the chosen one
+		lead := leads[x.Choose("cookie-in-front", len(leads))]
 		c06Redeem(x, e, codes)
 		q := url.Values{}
 		if st.v != "" {
@@ -174,14 +180,20 @@ func c06Run(c *fw.Ctx) {
 			q.Set("error", er)
 		}
 		hdr := http.Header{}
-		if ck.v != "" {
-			hdr.Set("Cookie", c06CSRF+"="+ck.v)
+		var carried []string
+		for _, v := range []string{lead.v, ck.v} {
+			if v != "" {
+				carried = append(carried, v)
+			}
+		}
+		if len(carried) > 0 {
+			hdr.Set("Cookie", c06CSRF+"="+strings.Join(carried, "; "+c06CSRF+"="))
 		}
 		resp := e.Do(harness.NewRequest("GET", "/oauth2/callback?"+q.Encode(), host, hdr, nil))
 		if !owned {
 			return
 		}
-		desc := map[string]interface{}{"state": st.n, "csrf_cookie": ck.n, "code": code, "error": er, "host": host, "status": resp.Status, "location": resp.Location}
+		desc := map[string]interface{}{"state": st.n, "csrf_cookie": ck.n, "csrf_cookie_in_front_of_it": lead.n, "code": code, "error": er, "host": host, "status": resp.Status, "location": resp.Location}
 		viol := func(key, what string) {
 			c.Res.Violate(fw.Violation{Property: "C06", Key: "C06/callback/" + key, What: what, Scenario: "callback", Choices: x.Choices(), Detail: desc})
 		}
@@ -190,7 +202,7 @@ func c06Run(c *fw.Ctx) {
 		}
 		sc := resp.Cookie(harness.CookieName)
 		sessionSet := sc != nil && sc.Value != ""
-		c.Res.Outcome(fmt.Sprintf("%s|%s|%s|%s|%v|%d|%v", st.n, ck.n, code, er, host == hostA, resp.Status, sessionSet))
+		c.Res.Outcome(fmt.Sprintf("%s|%s|%s|%s|%s|%v|%d|%v", st.n, lead.n, ck.n, code, er, host == hostA, resp.Status, sessionSet))
 		if c.Res.Execs%200 == 9 {
 			c.Res.Sample(desc)
 		}
@@ -198,14 +210,38 @@ func c06Run(c *fw.Ctx) {
 			return
 		}
 		c.Res.Count("positive_session_set", 1)
-		rs, rc := sealedByProxy[st.v], sealedByProxy[ck.v]
-		switch {
-		case rs == nil || rc == nil:
-			viol("session-without-sealed-pair/"+st.n+"+"+ck.n, "a session was set although state or CSRF cookie was not sealed by this proxy")
-		case string(decodeB64(st.v)) == string(decodeB64(ck.v)):
-			viol("session-with-identical-ciphertexts/"+st.n+"+"+ck.n, "a session was set although state and CSRF cookie are the same ciphertext")
-		case !reflect.DeepEqual(rs, rc):
-			viol("session-across-flows/"+st.n+"+"+ck.n, "a session was set although state and CSRF cookie belong to different flows")
+		// one of the CSRF cookies the request carries must satisfy all three conditions together with the state
+		rs := sealedByProxy[st.v]
+		pairKey, pairWhat := "", ""
+		for i, v := range carried {
+			rc := sealedByProxy[v]
+			n := ck.n
+			if len(carried) == 2 && i == 0 {
+				n = lead.n
+			}
+			if len(carried) == 2 {
+				n += map[int]string{0: "(in-front)", 1: "(behind-" + lead.n + ")"}[i]
+			}
+			var k, w string
+			switch {
+			case rs == nil || rc == nil:
+				k, w = "session-without-sealed-pair/"+st.n+"+"+n, "a session was set although state or CSRF cookie was not sealed by this proxy"
+			case string(decodeB64(st.v)) == string(decodeB64(v)):
+				k, w = "session-with-identical-ciphertexts/"+st.n+"+"+n, "a session was set although state and CSRF cookie are the same ciphertext"
+			case !reflect.DeepEqual(rs, rc):
+				k, w = "session-across-flows/"+st.n+"+"+n, "a session was set although state and CSRF cookie belong to different flows"
+			}
+			if k == "" {
+				pairKey = ""
+				break
+			}
+			pairKey, pairWhat = k, w
+		}
+		if len(carried) == 0 {
+			pairKey, pairWhat = "session-without-sealed-pair/"+st.n+"+"+ck.n, "a session was set although the request carried no CSRF cookie"
+		}
+		if pairKey != "" {
+			viol(pairKey, pairWhat)
 		}
 		if er != "" {
 			viol("session-despite-error", "a session was set although the callback carried an error parameter")
@@ -235,7 +271,9 @@ func c06Run(c *fw.Ctx) {
 	// profile endpoint answers at that moment x a client-supplied header naming the other upstream.
 	// (the domain list is hand-written with a stray blank entry and an empty one)
 	yr := "- service: svca\n  default:\n    from: " + hostA + "\n    to: {{backend:a}}\n    options:\n      allowed_email_domains:\n        - corp.test\n        - ' '\n        - ''\n" +
-		"- service: svcg\n  default:\n    from: " + hostB + "\n    to: {{backend:b}}\n    options:\n      allowed_groups:\n        - eng\n"
+		"- service: svcg\n  default:\n    from: " + hostB + "\n    to: {{backend:b}}\n    options:\n      allowed_groups:\n        - eng\n" +
+		// a third upstream with rules of two kinds: either one admits
+		"- service: svcm\n  default:\n    from: " + c06HostM + "\n    to: {{backend:b}}\n    options:\n      allowed_email_domains:\n        - corp.test\n      allowed_groups:\n        - eng\n"
 	er, err := harness.NewProxyEnv(harness.ProxyOpts{YAML: yr, Backends: []string{"a", "b"}, TemplateVars: map[string]string{}})
 	if err != nil {
 		panic(explore.HarnessError{Msg: err.Error()})
@@ -249,7 +287,7 @@ func c06Run(c *fw.Ctx) {
 	profiles := []string{"200", "429", "503", "500", "reset", "200-not-json"}
 	fwdHeaders := []string{"", "X-Forwarded-Host", "X-Original-Host", "Forwarded"}
 	drive(c, "rules", -1, func(x *explore.Exec, owned bool) {
-		host := hosts[x.Choose("host", 2)]
+		host := []string{hostA, hostB, c06HostM}[x.Choose("host", 3)]
 		u := users[x.Choose("user", len(users))]
 		prof := profiles[x.Choose("profile-answer", len(profiles))]
 		fh := fwdHeaders[x.Choose("forwarding-header", len(fwdHeaders))]
@@ -289,7 +327,7 @@ func c06Run(c *fw.Ctx) {
 		f := c06StartWith(er, host, "/start-here", extra)
 		if f == nil {
 			if owned {
-				c.Res.Outcome(fmt.Sprintf("rules-no-flow|%v|%s", host == hostA, fh))
+				c.Res.Outcome(fmt.Sprintf("rules-no-flow|%s|%s", host, fh))
 			}
 			return
 		}
@@ -304,23 +342,23 @@ func c06Run(c *fw.Ctx) {
 		if !owned {
 			return
 		}
-		desc := map[string]interface{}{"host": host, "rule_of_that_upstream": map[bool]string{true: "allowed_email_domains [corp.test]", false: "allowed_groups [eng]"}[host == hostA], "user": u.email, "user_groups": u.groups,
+		ruleName := map[string]string{hostA: "domain-upstream", hostB: "group-upstream", c06HostM: "domain-or-group-upstream"}[host]
+		desc := map[string]interface{}{"host": host, "rule_of_that_upstream": map[string]string{hostA: "allowed_email_domains [corp.test]", hostB: "allowed_groups [eng]", c06HostM: "allowed_email_domains [corp.test] + allowed_groups [eng]"}[host], "user": u.email, "user_groups": u.groups,
 			"profile_endpoint_answers": prof, "client_header": strings.Join(extra, ""), "status": resp.Status, "location": resp.Location}
 		sc := resp.Cookie(harness.CookieName)
 		sessionSet := sc != nil && sc.Value != ""
-		c.Res.Outcome(fmt.Sprintf("rules|%v|%s|%s|%s|%d|%v", host == hostA, u.email, prof, fh, resp.Status, sessionSet))
+		c.Res.Outcome(fmt.Sprintf("rules|%v|%s|%s|%s|%d|%v", ruleName, u.email, prof, fh, resp.Status, sessionSet))
 		if !sessionSet {
 			return
 		}
-		passes := strings.HasSuffix(u.email, "@corp.test")
-		if host == hostB {
-			passes = prof == "200" && len(u.groups) > 0 && u.groups[0] == "eng"
-		}
+		byDomain := strings.HasSuffix(u.email, "@corp.test")
+		byGroup := prof == "200" && len(u.groups) > 0 && u.groups[0] == "eng"
+		passes := map[string]bool{hostA: byDomain, hostB: byGroup, c06HostM: byDomain || byGroup}[host]
 		viol := func(key, what string) {
 			c.Res.Violate(fw.Violation{Property: "C06", Key: "C06/rules/" + key, What: what, Scenario: "rules", Choices: x.Choices(), Detail: desc})
 		}
 		if !passes {
-			k := "session-for-user-failing-the-rules/" + map[bool]string{true: "domain-upstream", false: "group-upstream"}[host == hostA] + "/profile=" + prof
+			k := "session-for-user-failing-the-rules/" + ruleName + "/profile=" + prof
 			if fh != "" {
 				k += "/client-names-other-upstream"
 			}
